@@ -10,7 +10,7 @@ SPEC = {
         # simd/keccakf1600 (StateX4.Permute -> permuteScalarX4) and K12's one-lane path of the public constructor executed
         # (-tags purego keeps IsEnabledX4() true and goes through permuteSIMDx4 = fallback with the turbo flag passed on)
         {"name": "c15na", "pkg": "./zz_verif/c15",
-         "run": "^TestC15(_00Selftest|Permutations|OneShot|Split2|K12ManyChunks|Histories)$/^(sponge|xof|k12)$/^(TurboSHAKE128|TurboSHAKE256|K12D10|NewDraft10-ctx)$",
+         "run": "^TestC15(_00Selftest|Permutations|ReusePerm|ReuseHash|OneShot|Split2|K12ManyChunks|Histories)$/^(sponge|xof|k12)$/^(TurboSHAKE128|TurboSHAKE256|K12D10|NewDraft10-ctx)$",
          "configs": [c for c in CPU_OFF if c["name"] == "noavx2"], "tiers": ["quick"], "shards": {"quick": 1}},
         {"name": "c15k12na", "pkg": "./xof/k12", "run": "^TestZZC15(_00Selftest|Histories|Split2)$", "whitebox": True,
          "configs": [c for c in CPU_OFF if c["name"] == "noavx2"], "tiers": ["quick"], "shards": {"quick": 1}},
@@ -23,7 +23,7 @@ SPEC = {
     ],
     "rule": "case = one history (rapid t.Repeat over Write(chunk)/Read(n)/Clone/Reset/Sum on up to 4 live copies) of one of 14 hash/XOF entry points "
             "(+ K12 with lanes 1/2/4 white-box), one (length, split) pair of the two-chunk sweep, one 1/2/4-way permutation input, one expander call, or one Ascon (key, nonce, ad, pt, dst, alteration) tuple; concurrent sub-check (also built with -race): 8 goroutines behind a barrier use ONE ascon.Cipher per mode (Seal, Open genuine / in place, Open of a body with a concurrently opened message's tag, bit flip), ONE Expander per kind, and their own states from xof.ID.New / k12.NewDraft10(shared context) / StateX4, every result compared with the sequentially computed reference. "
-            "non-trivial = a concurrent round; a checked Read/Sum whose lineage has >= 2 write chunks with a rate or 8192-byte boundary inside (or at the end of) a chunk, or a Clone/Reset in its lineage; "
+            "non-trivial = a concurrent round; a later round on a reused object (re-Initialize of StateX2/X4 in every flag order with permutations in between; Reset + other message / chunking / TurboSHAKE domain byte on one hash or XOF object; later Seal/Open calls on one Cipher incl. after failed Opens; later Expand calls on one Expander); a checked Read/Sum whose lineage has >= 2 write chunks with a rate or 8192-byte boundary inside (or at the end of) a chunk, or a Clone/Reset in its lineage; "
             "a two-chunk sweep pair with 0 < split < length; a one-shot helper call on a message longer than one block; every permutation case; an expander call with an oversize DST or more than one output block; "
             "an Ascon case sealed/opened in place or appended to a non-empty dst, or an altered (key|nonce|ad|ct|tag) that was rejected. distinct by FNV-64 of the lineage's operation sequence (op kinds, lengths, data) resp. of the inputs",
     "assumptions": COMMON_ASSUME + [
